@@ -21,7 +21,10 @@ GenDies(s)   == s.gen \in {"trunc", "exit", "oversize"}
 S(e) == e.case.plugins
 N(e) == Len(S(e))
 AllGood(e) == \A i \in 1..N(e) : HsGood(S(e)[i])
-Gets(e, i) == AllGood(e) /\ Feature(S(e)[i])                       \* receives a generate request
+\* layout cases may expect a failure that is not a plugin's (compile error, a module that
+\* fails to generate, a thrift root that is too narrow): generation stops before the plugin call
+CoreFails(e) == Has(e.case, "expect") /\ e.case.expect.fail
+Gets(e, i) == AllGood(e) /\ Feature(S(e)[i]) /\ ~CoreFails(e)      \* receives a generate request
 Dies(e, i) == Gets(e, i) /\ GenDies(S(e)[i])                       \* gone before the goodbye
 ByeSeen(e, i) == HsGood(S(e)[i]) /\ ~Dies(e, i)
 \* two generating plugins answering with the same (cleaned) path, or a plugin using a core path
@@ -33,6 +36,11 @@ PluginFailed(e, i) ==
   \/ Gets(e, i) /\ ~(GenLabelOK(S(e)[i]) \/ SamePathGroup(S(e)[i]) = "core")     \* exception, garbage, truncated, dotdot, ...
   \/ ByeSeen(e, i) /\ S(e)[i].bye # "ok"
 SomeFailure(e) == (\E i \in 1..N(e) : PluginFailed(e, i)) \/ Conflict(e)
+\* a failure before anything is written: handshake, generate request, or a path conflict
+\* (a goodbye that fails after a successful generation is not one of them)
+PreWriteFailure(e) == \/ \E i \in 1..N(e) : ~HsGood(S(e)[i])
+                      \/ \E i \in 1..N(e) : Gets(e, i) /\ ~(GenLabelOK(S(e)[i]) \/ SamePathGroup(S(e)[i]) = "core")
+                      \/ Conflict(e)
 
 Recv(ev) == SelectSeq(ev, LAMBDA x : x \in {"Plugin:handshake", "ServiceGenerator:generate", "Plugin:goodbye"})
 CountOf(seq, x) == Cardinality({ k \in 1..Len(seq) : seq[k] = x })
@@ -54,14 +62,21 @@ Checks(e) ==
         \A i \in 1..N(e) : e.per[i].started =>
             (e.per[i].reaped /\ Len(e.per[i].events) >= 2 /\ e.per[i].events[1] = "start"
              /\ e.per[i].events[Len(e.per[i].events)] = "exit")>>,
-    <<"fails-iff-some-plugin-failed", e.failed <=> SomeFailure(e)>>,
+    <<"fails-iff-some-plugin-failed", e.failed <=> (SomeFailure(e) \/ CoreFails(e))>>,
     <<"failure-names-a-failing-plugin",
         (e.failed /\ \E i \in 1..N(e) : PluginFailed(e, i)) => \E i \in 1..N(e) : e.per[i].named /\ (PluginFailed(e, i) \/ Conflict(e))>> }
   \cup
   (IF e.mode = "cli" THEN
-    { <<"output-confined-to-out-dir", e.escaped = <<>> /\ \A k \in 1..Len(e.created) : TRUE>>,
-      <<"nothing-written-on-failure", e.failed => (e.created = <<>> /\ e.modified = <<>> /\ e.deleted = <<>>)>>,
+    { <<"output-confined-to-out-dir", e.escaped = <<>> /\ e.created_outside = <<>>>>,
+      <<"nothing-written-on-failure", PreWriteFailure(e) => (e.created = <<>> /\ e.modified = <<>> /\ e.deleted = <<>>)>>,
       <<"existing-files-untouched", e.modified = <<>> /\ e.deleted = <<>>>> }
+   ELSE {})
+  \cup
+  \* layout cases carry the expected outcome computed from the file locations alone
+  (IF Has(e.case, "expect") THEN
+    { <<"expected-outcome", e.failed = e.case.expect.fail>>,
+      <<"paths-determined-by-location-relative-to-thrift-root",
+          ~e.case.expect.fail => Range(e.created) = Range(e.case.expect.paths)>> }
    ELSE {})
 
 Conf(e) == { <<"model-request-sequence", \A i \in 1..N(e) : Recv(e.per[i].events) = ExpectedRecv(e, i)>> }
